@@ -84,6 +84,7 @@ type Lexer struct {
 }
 
 func New(input string) *Lexer {
+	verifInput(input)
 	l := &Lexer{
 		input:       input,
 		isHTML:      true,
